@@ -450,91 +450,9 @@ def check(model: Model, run: Run) -> None:
                 want += ([','] if k else []) + [nb]
             good = good and toks == want + [']']
     run.check(good, exa.qualname, 'selector prefix for 1 / 2 / 3 neighbors: %s' % shown, exa.loc(), 'the v6 dispatcher reads `peer <address>` or one bracketed list `peer [ a , b ]` (tokens apart); `peer a, peer b announce ...` is answered "unknown command: peer" and the route is never announced')
-    # metric / state options
-
-    def _xexp(v: ast.AST) -> ast.AST:
-        # the expression with the locals it reads replaced by their definitions (state_name = target.value.lower())
-        if not isinstance(v, ast.Call):
-            return v
-        try:
-            return ast.parse(xl.expand(v), mode='eval').body
-        except SyntaxError:
-            return v
-
-    mvars = xl.from_value(lambda v: amatch("vars(options).get(f'{V_t.value.lower()}_metric', 0)", _xexp(v), {'V_t': tpar}) is not None)
-    inc = [n for n in walk_no_nested(exa.node) if isinstance(n, ast.AugAssign) and isinstance(n.op, ast.Add) and dotted(n.target) in mvars and dotted(n.value) == 'options.increase']
-    med = False
-    for n in walk_no_nested(exa.node):
-        if isinstance(n, ast.JoinedStr):
-            for i, v in enumerate(n.values):
-                if isinstance(v, ast.Constant) and str(v.value).endswith(' med ') and i + 1 < len(n.values) and isinstance(n.values[i + 1], ast.FormattedValue) and dotted(n.values[i + 1].value) in mvars:
-                    med = True
-    run.check(len(mvars) == 1 and len(inc) == 1 and med, exa.qualname, 'med = <state>_metric, increased per prefix', exa.loc(), 'the configured metric of the state is announced')
-    # as-path: the value configured for the state, the generic --as-path only when the state has none (evaluated over the cases)
-    apv = None
-    for n in walk_no_nested(exa.node):
-        if isinstance(n, ast.JoinedStr):
-            for i, v in enumerate(n.values):
-                if isinstance(v, ast.Constant) and str(v.value).endswith(' as-path [ ') and i + 1 < len(n.values) and isinstance(n.values[i + 1], ast.FormattedValue) and isinstance(n.values[i + 1].value, ast.Name):
-                    apv = n.values[i + 1].value.id
-    if apv is None:
-        run.cannot('exabgp(): the variable written after ` as-path [ ` was not found')
-    else:
-        class _Unk(Exception):
-            pass
-
-        def apval(e: ast.AST, env: dict, P, G):  # noqa: ANN001
-            ee = _xexp(e)
-            if amatch("vars(options).get(f'{V_t.value.lower()}_as_path', None)", ee, {'V_t': tpar}) is not None or amatch("vars(options).get(f'{V_t.value.lower()}_as_path')", ee, {'V_t': tpar}) is not None:
-                return P
-            if dotted(e) == 'options.as_path':
-                return G
-            if isinstance(e, ast.Constant):
-                return e.value
-            if isinstance(e, ast.Name) and e.id in env:
-                return env[e.id]
-            if isinstance(e, ast.BoolOp):
-                last = None
-                for v in e.values:
-                    last = apval(v, env, P, G)
-                    if isinstance(e.op, ast.Or) and last:
-                        return last
-                    if isinstance(e.op, ast.And) and not last:
-                        return last
-                return last
-            if isinstance(e, ast.IfExp):
-                return apval(e.body if apval(e.test, env, P, G) else e.orelse, env, P, G)
-            if isinstance(e, ast.UnaryOp) and isinstance(e.op, ast.Not):
-                return not apval(e.operand, env, P, G)
-            if isinstance(e, ast.Compare) and len(e.ops) == 1 and isinstance(e.comparators[0], ast.Constant) and e.comparators[0].value is None:
-                isn = apval(e.left, env, P, G) is None
-                return isn if isinstance(e.ops[0], (ast.Is, ast.Eq)) else not isn
-            raise _Unk(norm(e)[:50])
-
-        def aprun(sts: list[ast.stmt], env: dict, P, G) -> None:  # noqa: ANN001
-            for st in sts:
-                if isinstance(st, (ast.Assign, ast.AnnAssign)) and st.value is not None:
-                    tg = st.targets[0] if isinstance(st, ast.Assign) else st.target
-                    if isinstance(tg, ast.Name) and (tg.id == apv or tg.id in env or any(isinstance(x, ast.Name) and x.id == apv for x in ast.walk(st.value))):
-                        env[tg.id] = apval(st.value, env, P, G)
-                    elif isinstance(tg, ast.Name):
-                        try:
-                            env[tg.id] = apval(st.value, env, P, G)
-                        except _Unk:
-                            pass
-                elif isinstance(st, ast.If) and any(isinstance(x, ast.Name) and isinstance(x.ctx, ast.Store) and x.id == apv for y in st.body + st.orelse for x in ast.walk(y)):
-                    aprun(st.body if apval(st.test, env, P, G) else st.orelse, env, P, G)
-
-        okap, seenap = True, {}
-        try:
-            for P_, G_ in (('STATE', 'GENERIC'), ('STATE', None), (None, 'GENERIC'), (None, None)):
-                env_: dict = {}
-                aprun(exa.node.body, env_, P_, G_)
-                seenap[(P_, G_)] = env_.get(apv)
-                okap = okap and env_.get(apv) == (P_ if P_ is not None else G_)
-        except _Unk as e:
-            run.cannot('exabgp(): as-path definition not understood: %s' % e)
-        run.check(okap, exa.qualname, 'as-path = <state>_as_path, --as-path only when the state has none (%s)' % seenap, exa.loc(), 'with both --as-path and a state-specific option the announcement of that state must carry the state-specific path')
+    # what is written, for every state: exabgp(target) is evaluated on the syntax tree for option sets and states, the lines it
+    # hands to sys.stdout.write are parsed and compared with what the options ask for
+    _r3_lines(model, run, folder, exa, tpar)
 
 
 def _prefix_statements(exa, name: str) -> list[ast.stmt]:  # noqa: ANN001
@@ -552,3 +470,110 @@ def _prefix_statements(exa, name: str) -> list[ast.stmt]:  # noqa: ANN001
         return None
 
     return find(exa.node.body) or []
+
+
+def _parse_line(line: str) -> dict | None:
+    """`peer <sel> announce|withdraw route <prefix> key value|[ list ] ...` -> {'action':..., 'route':..., key: value}"""
+    toks = line.split()
+    if len(toks) < 5 or toks[0] != 'peer':
+        return None
+    i = 1
+    if toks[i] == '[':
+        while i < len(toks) and toks[i] != ']':
+            i += 1
+    i += 1
+    if i + 2 >= len(toks) or toks[i] not in ('announce', 'withdraw') or toks[i + 1] != 'route':
+        return None
+    out = {'action': toks[i], 'route': toks[i + 2]}
+    i += 3
+    while i < len(toks):
+        key = toks[i]
+        if i + 1 >= len(toks) or key in out:
+            return None
+        if toks[i + 1] == '[':
+            j = i + 2
+            vals = []
+            while j < len(toks) and toks[j] != ']':
+                vals.append(toks[j])
+                j += 1
+            if j >= len(toks):
+                return None
+            out[key] = ' '.join(vals)
+            i = j + 1
+        else:
+            out[key] = toks[i + 1]
+            i += 2
+    return out
+
+
+def _r3_lines(model: Model, run: Run, folder: Folder, exa, tpar: str) -> None:  # noqa: ANN001
+    from ..evalfn import EnumMember, Raised, Undecided, eval_function
+
+    ips = ['203.0.113.1/32', '203.0.113.2/32', '2001:db8::1/128']
+    base = {
+        'ips': ips, 'ip_ifnames': {}, 'label': None, 'label_exact_match': False, 'sudo': False, 'ip_dynamic': False, 'ip_setup': False,
+        'next_hop': None, 'up_metric': 100, 'down_metric': 1000, 'disabled_metric': 500, 'increase': 10, 'local_preference': -1,
+        'community': None, 'disabled_community': None, 'extended_community': None, 'large_community': None, 'as_path': None,
+        'up_as_path': None, 'down_as_path': None, 'disabled_as_path': None, 'path_id': None, 'neighbors': None, 'withdraw_on_down': False,
+        'no_ack': True,
+    }
+    variants = {
+        'defaults': {},
+        'attributes': {'next_hop': '192.0.2.254', 'local_preference': 200, 'community': '65000:1', 'disabled_community': '65000:666', 'extended_community': 'target:65000:1', 'large_community': '65000:1:2', 'as_path': '65001 65002', 'down_as_path': '65001 65001 65002', 'path_id': 7},
+        'withdraw on down, path id': {'withdraw_on_down': True, 'path_id': 7, 'community': '65000:1'},
+        'state as-path only': {'up_as_path': '65010', 'disabled_as_path': '65030 65030'},
+        'generic as-path only': {'as_path': '65001'},
+    }
+
+    def ignore(call: ast.Call, env: dict, sink: list) -> bool:
+        d = dotted(call.func) or ''
+        if d == 'sys.stdout.write' and call.args:
+            v = folder.fold(call.args[0], exa.module, exa.cls, env)
+            sink.append(v)
+            return True
+        return d.startswith('logger.') or d in ('sys.stdout.flush', 'sys.stdin.readline', 'setup_ips', 'remove_ips', 'time.sleep')
+
+    n = 0
+    for vname, delta in variants.items():
+        opts = dict(base, **delta)
+        for state in ('UP', 'DOWN', 'DISABLED', 'EXIT', 'INIT', 'RISING', 'FALLING', 'END'):
+            sink: list = []
+            r = eval_function(folder, exa, {tpar: EnumMember(state), 'options': opts}, outcomes=True, max_steps=2000, on_effect=lambda c, e, sink=sink: ignore(c, e, sink), on_unknown=lambda e: (False if 'isatty' in norm(e) else UNKNOWN))
+            inst = 'exabgp(%s) with %s' % (state, vname)
+            if isinstance(r, (Undecided, Raised)) or any(not isinstance(x, str) for x in sink):
+                run.cannot('%s: not evaluated (%s, %d lines)' % (inst, r, len(sink)))
+                continue
+            n += 1
+            lines = [x for x in ''.join(sink).split('\n') if x]
+            if state in ('INIT', 'RISING', 'FALLING', 'END'):
+                run.check(not lines, exa.qualname, '%s writes nothing' % inst, exa.loc(), 'no announcement changes before the rise / fall count is reached: wrote %s' % lines[:2])
+                continue
+            withdraw = state == 'EXIT' or (opts['withdraw_on_down'] and state != 'UP')
+            want = []
+            key = {'UP': 'up', 'DOWN': 'down', 'DISABLED': 'disabled'}.get(state)
+            for k, ip in enumerate(ips):
+                w = {'action': 'withdraw' if withdraw else 'announce', 'route': ip, 'next-hop': opts['next_hop'] or 'self'}
+                if not withdraw:
+                    w['med'] = str(opts[key + '_metric'] + k * opts['increase'])
+                    if opts['local_preference'] >= 0:
+                        w['local-preference'] = str(opts['local_preference'])
+                    comm = opts['disabled_community'] if state in ('DOWN', 'DISABLED') and opts['disabled_community'] else opts['community']
+                    if comm:
+                        w['community'] = comm
+                    if opts['extended_community']:
+                        w['extended-community'] = opts['extended_community']
+                    if opts['large_community']:
+                        w['large-community'] = opts['large_community']
+                    ap = opts.get(key + '_as_path') or opts['as_path']
+                    if ap:
+                        w['as-path'] = ap
+                if opts['path_id']:
+                    w['path-information'] = str(opts['path_id'])
+                want.append(w)
+            got = [_parse_line(x) for x in lines]
+            diff = next((('line %d' % (i + 1), g, w) for i, (g, w) in enumerate(zip(got, want)) if g != w), None)
+            if diff is None and len(got) != len(want):
+                diff = ('%d lines for %d addresses' % (len(got), len(want)), None, None)
+            run.check(diff is None, exa.qualname, '%s: %d lines carry the configured values' % (inst, len(lines)), exa.loc(), 'each route is written with the action of the state, its next hop, the metric of the state increased per address, the communities / AS path of the state and - announce and withdraw alike, the Adj-RIB-Out is keyed on it - its path-information: %s wrote %s, expected %s' % (diff[0] if diff else '', diff[1] if diff else '', diff[2] if diff else ''))
+    if n < 20:
+        run.cannot('exabgp(): only %d of %d (state, options) cases evaluated' % (n, len(variants) * 8))
